@@ -5,7 +5,7 @@
    and "the rest of the graph is untouched" are decided on every generated case by the correspondence of the whole
    observation with the implementation and by the text-level oracle, not proved about the model. *)
 From Coq Require Import List String Ascii ZArith Bool.
-From GfaV Require Import Base.Py Gen.Tables Gen.K_mult Model.Codec Model.Graph Model.Multiply Proofs.MultiplyP.
+From GfaV Require Import Base.Py Gen.Tables Gen.K_mult Model.Codec Model.Graph Model.Multiply Proofs.MultiplyP Proofs.GraphP Proofs.FrameP.
 Import ListNotations.
 Open Scope string_scope.
 
@@ -92,3 +92,15 @@ Theorem C15_unknown_policy_refused : forall s p n f,
   in_strs p T_LINKS_DISTRIBUTION_POLICY = false -> select_end s p n f = Err (G EArgument).
 Proof. exact unknown_policy_refused. Qed.
 Print Assumptions C15_unknown_policy_refused.
+
+(* the rest of the graph is untouched: without distribution, every line that is not a placeholder, not the multiplied
+   segment and not one of its dovetails or containments is in the graph afterwards exactly as it was — for every factor
+   >= 2, every list of copy names, every graph *)
+Theorem C15_rest_of_the_graph_untouched : forall s n k names s',
+  ids_ok s -> (2 <= k)%Z -> multiply s n k names None = Ok s' ->
+  forall x, In x (lines s) -> g_virtual x = false ->
+            (forall seg0, find_segment s n = Some seg0 -> g_id x <> g_id seg0) ->
+            ~ In (g_id x) (map g_id (seg_edges s n)) ->
+            In x (lines s').
+Proof. exact multiply_frame. Qed.
+Print Assumptions C15_rest_of_the_graph_untouched.
